@@ -72,6 +72,7 @@ class Extract:
         self.optional = False
         self.strip_attrs = False
         self.sig_rewrites = []
+        self.lift_expr = False  # the lifted closure is expression-bodied (`eclosure`)
         self.lift = None  # (n, signature): this extract is the body of the n-th closure of the anchor item, lifted to a named fn
         self.closure_repl = []  # (n, text): the n-th closure expression of the item is replaced by text (its body is verified by a lifted extract)
 
@@ -148,14 +149,16 @@ def _parse_unit(text, base_dir=None):
                     (ex.rewrites if k == "rewrite" else ex.sig_rewrites).append(
                         (unesc(ma.group(1)), unesc(ma.group(2)), -1 if ma.group(3) == "?" else int(ma.group(3) or 1)))
                     cur = None
-                elif k == "closure":
+                elif k in ("closure", "eclosure"):
+                    # closure N: N-th block-bodied closure `|a| { .. }`; eclosure N: N-th expression-bodied closure `|a| expr`
                     ma = re.match(r"(\d+)\s+(lifted_as|replaced_by)\s+`(.*)`\s*$", rest)
                     if not ma:
                         raise ValueError("bad closure directive: %r" % l2)
                     if ma.group(2) == "lifted_as":
                         ex.lift = (int(ma.group(1)), ma.group(3))
+                        ex.lift_expr = (k == "eclosure")
                     else:
-                        ex.closure_repl.append((int(ma.group(1)), ma.group(3)))
+                        ex.closure_repl.append((int(ma.group(1)), ma.group(3), k == "eclosure"))
                     cur = None
                 elif k == "strip_logs":
                     ex.strip_logs = True
@@ -304,6 +307,37 @@ def _find_closures(text):
     return res
 
 
+def _find_expr_closures(text):
+    """(start, expr_start, expr_end_exclusive) of each expression-bodied closure `|args| expr` that is an
+    argument or the right-hand side of `=` (so `a || b` is never taken for one); expr ends at the closing
+    bracket of the enclosing call or at a `,` / `;` at its own nesting depth"""
+    msk = mask(text)
+    res = []
+    for m in re.finditer(r"\|[A-Za-z0-9_,&:()<> ]*\|\s*(?!\{)(?=\S)", msk):
+        j = m.start() - 1
+        while j >= 0 and msk[j] in " \t\n":
+            j -= 1
+        if j < 0 or msk[j] not in "(,=":
+            continue
+        k, depth = m.end(), 0
+        while k < len(msk):
+            c = msk[k]
+            if c in "([{":
+                depth += 1
+            elif c in ")]}":
+                if depth == 0:
+                    break
+                depth -= 1
+            elif c in ",;" and depth == 0:
+                break
+            k += 1
+        e = k
+        while e > m.end() and text[e - 1] in " \t\n":
+            e -= 1
+        res.append((m.start(), m.end(), e))
+    return res
+
+
 def transform(ex, src):
     """Apply T1..T6 to the item named by ex.anchor in Source src.  Returns (text, record)."""
     it = src.find(ex.anchor)
@@ -314,21 +348,31 @@ def transform(ex, src):
     text = orig
     if ex.lift:
         # T7: the n-th closure of the item becomes a named function with the given signature; its body text is unchanged
-        cl = _find_closures(text)
         n, lsig = ex.lift
+        cl = _find_expr_closures(text) if ex.lift_expr else _find_closures(text)
         if n < 1 or n > len(cl):
             raise LostAnchor("%s: closure %d not found (%d closures)" % (ex.anchor, n, len(cl)))
         st, bo, bc = cl[n - 1]
-        record["lines"] = [src.line_of(it.start + st), src.line_of(it.start + bc)]
-        record["sha256"] = sha256_text(text[st:bc + 1])
-        record["transformations"].append("T7 closure %d (%s) lifted to `%s`; captured variables become parameters" % (n, text[st:bo].strip(), lsig))
-        text = lsig + " " + text[bo:bc + 1]
+        if ex.lift_expr:  # (start, expr start, expr end exclusive): the body is the expression, wrapped in braces
+            record["lines"] = [src.line_of(it.start + st), src.line_of(it.start + bc)]
+            record["sha256"] = sha256_text(text[st:bc])
+            record["transformations"].append("T7 expression closure %d (%s) lifted to `%s { <expr> }`; captured variables become parameters" % (n, text[st:bo].strip(), lsig))
+            text = lsig + " {\n\t\t" + text[bo:bc] + "\n\t}"
+        else:
+            record["lines"] = [src.line_of(it.start + st), src.line_of(it.start + bc)]
+            record["sha256"] = sha256_text(text[st:bc + 1])
+            record["transformations"].append("T7 closure %d (%s) lifted to `%s`; captured variables become parameters" % (n, text[st:bo].strip(), lsig))
+            text = lsig + " " + text[bo:bc + 1]
     elif ex.closure_repl:
-        cl = _find_closures(text)
-        for n, rep in sorted(ex.closure_repl, key=lambda x: -x[0]):
+        cl_b, cl_e = _find_closures(text), _find_expr_closures(text)
+        spans = []
+        for n, rep, is_expr in ex.closure_repl:
+            cl = cl_e if is_expr else cl_b
             if n < 1 or n > len(cl):
                 raise LostAnchor("%s: closure %d not found (%d closures)" % (ex.anchor, n, len(cl)))
             st, bo, bc = cl[n - 1]
+            spans.append((st, bc - 1 if is_expr else bc, n, rep))
+        for st, bc, n, rep in sorted(spans, key=lambda x: -x[0]):
             # `{name?fallback}`: a captured variable the enclosing function may no longer declare (a change
             # that stops using it); the fallback keeps the text well-formed so the lifted closure's contract
             # is still decided instead of ending in a front-end error
